@@ -180,6 +180,11 @@ impl DataType for Data {
                 return Err(StoreError::DirUnderFile);
             }
         }
+        // The rule is symmetric: the path must not be an ancestor of a tracked path
+        // either, or that file would end up nested under this one.
+        if items.keys().any(|key| key != path && key.starts_with(path)) {
+            return Err(StoreError::DirUnderFile);
+        }
 
         Ok(())
     }
@@ -319,7 +324,8 @@ impl<T: DataType> Store<T> {
     /// 1. The path is empty.
     /// 2. The path is absolute.
     /// 3. Any of the path's ancestors is already tracked in the store, implying
-    ///    the path to be nested under a file.
+    ///    the path to be nested under a file, or the path is an ancestor of a
+    ///    tracked path, implying that file to be nested under this one.
     ///
     /// In an images store, returns an [`StoreError`] if:
     /// 1. The path is empty.
